@@ -130,6 +130,14 @@ impl Replica {
         }
     }
 
+    /// A receiver of the watch channel through which the replica notifies the proposer task
+    /// (lets a harness observe *when*, relative to other effects, the notification is sent).
+    pub fn subscribe_proposer(
+        &self,
+    ) -> sync::watch::Receiver<Option<validator::v2::ProposalJustification>> {
+        self.proposer.clone()
+    }
+
     /// Builds the proposal the proposer task would broadcast for `justification`.
     pub async fn create_proposal(
         &self,
